@@ -214,6 +214,17 @@ def toEulerG (T : TrigOps K) (ofInt : Int → K) (eps : K) (quat : Q K) (seq : L
 end ToEulerG
 
 /-! ### conversions over `Float` -/
+section Canonical
+variable {K : Type} [LT K] [DecidableLT K] [BEq K] [OfNat K 0] [Neg K]
+/-- the sign rule of `_canonical_quaternion`: `w < 0`, ties broken on x, y, z (storage components `ix iy iz`) -/
+def needsInversion (ix iy iz : Nat) (q : Q K) : Bool :=
+  let comp := fun (i : Nat) => if i = 0 then q.a else if i = 1 then q.b else q.c
+  let x := comp ix; let y := comp iy; let z := comp iz
+  (q.w < 0) || ((q.w == 0) && ((x < 0) || ((x == 0) && ((y < 0) || ((y == 0) && (z < 0))))))
+/-- `_canonical_quaternion` -/
+def canonicalG (ix iy iz : Nat) (q : Q K) : Q K := if needsInversion ix iy iz q then q.neg else q
+end Canonical
+
 namespace F
 
 def pi : Float := 3.141592653589793
@@ -224,11 +235,7 @@ def floatTrig : TrigOps Float := ⟨Float.sqrt, Float.sin, Float.cos, Float.atan
 
 /-- `_canonical_quaternion`: `w ≥ 0`, ties broken on x, y, z (which are components 2, 1, 0 for
 `AXIS_ORDER = 'zyx'`; the index map is a parameter) -/
-def canonical (ix iy iz : Nat) (q : Q Float) : Q Float :=
-  let comp := fun (i : Nat) => if i = 0 then q.a else if i = 1 then q.b else q.c
-  let x := comp ix; let y := comp iy; let z := comp iz
-  let inv := (q.w < 0) || ((q.w == 0) && ((x < 0) || ((x == 0) && ((y < 0) || ((y == 0) && (z < 0))))))
-  if inv then q.neg else q
+def canonical (ix iy iz : Nat) (q : Q Float) : Q Float := canonicalG ix iy iz q
 
 /-- `_make_elementary_quat`: rotation by `angle` about storage axis `i` -/
 def elementary (i : Nat) (angle : Float) : Q Float := elementaryG i (Float.sin (angle / 2)) (Float.cos (angle / 2))
